@@ -17,6 +17,9 @@ pub use {
     system::System,
 };
 
+#[cfg(fil_verif)]
+pub use execution::verif;
+
 /// The kind of call-like instruction.
 #[derive(Clone, Copy, Debug, PartialEq, Eq)]
 pub enum CallKind {
